@@ -8,6 +8,7 @@ import math
 
 from mc import lib, refdata
 
+CASE_TIMEOUT_S = 300      # wall-clock horizon per state (states of this check bundle many sub-states; generous for loaded machines)
 PROPERTY = 'C14'
 RULE = ('(exact) full product: every composition with 1..A atoms over {C,H,N,O,S,P} compared peak by peak with the exact '
         'multinomial expansion; (identities) compositions on the count grid {1,2,7,30,200} with <=2 elements of '
